@@ -135,7 +135,7 @@ package raft
 //@ guar [G2] r.currentTerm == old(r.currentTerm) && old(r.votedFor) != "" ==> r.votedFor == old(r.votedFor)
 //@ guar [G3] r.commitIndex >= old(r.commitIndex)
 //@ guar [G4] r.lastApplied >= old(r.lastApplied)
-//@ guar [Gqv] forall o *Operation :: old(o.quorumVerified) ==> o.quorumVerified
+//@ guar [Gqv] forall o *Operation :: old(allocated(o)) && old(o.quorumVerified) ==> o.quorumVerified
 //@ guar [Gclk] now >= old(now)
 // GL (leader append-only): used as rely under assumption A-LEAD-ONCE (a node does not enter the
 // leader state twice in one term), without which it is not transitive.
@@ -316,6 +316,9 @@ package raft
 //@   ensures [I11] r.operationManager != nil && r.operationManager.leaderLease != nil && r.operationManager.pendingReplicated != nil && r.operationManager.pendingReadOnly != nil && (forall o *Operation :: o in r.operationManager.pendingReadOnly ==> o != nil)
 //@   ensures [answered-mono] forall c int :: old(answered[c]) ==> answered[c]
 //@   ensures [clock] now >= old(now)
+//@   ensures [nextIndex] old(forall fid string :: fid in r.followers ==> r.followers[fid].nextIndex <= Llast + 1) ==> forall fid string :: fid in r.followers ==> r.followers[fid].nextIndex <= Llast + 1
+//@   loop range r.configuration.Members invariant [nextIndex] old(forall fid string :: fid in r.followers ==> r.followers[fid].nextIndex <= Llast + 1) ==> forall fid string :: fid in r.followers ==> r.followers[fid].nextIndex <= Llast + 1
+//@   loop range next.Members invariant [nextIndex] old(forall fid string :: fid in r.followers ==> r.followers[fid].nextIndex <= Llast + 1) ==> forall fid string :: fid in r.followers ==> r.followers[fid].nextIndex <= Llast + 1
 //@   loop range r.configuration.Members invariant [I6b] forall fid string :: fid in r.followers ==> r.followers[fid] != nil
 //@   loop range next.Members invariant [I6b] forall fid string :: fid in r.followers ==> r.followers[fid] != nil
 
